@@ -331,7 +331,7 @@ func onePipe(o *opts, r *rng, s *summary, i int, pl *pipeline, distinct map[stri
 			if !t.OK {
 				continue
 			}
-			t, w = p.do(Cmd{Kind: "commit", Targets: []string{st.file}}, sems, want(11, 1), nil, nil)
+			t, w = p.do(Cmd{Kind: "commit", Targets: []string{st.file}}, sems, want(11, 1, 27), nil, nil)
 			add(t, "commit first stage")
 			t, w = p.do(Cmd{Kind: "run"}, sems, want(18, 19, 23, 8, 9), nil, nil)
 			add(t, "run after partial run+commit")
@@ -422,7 +422,7 @@ func onePipe(o *opts, r *rng, s *summary, i int, pl *pipeline, distinct map[stri
 					t, w = p.do(Cmd{Kind: "run", Targets: []string{a.file}}, sems, want(18, 23, 8, 9), nil, nil)
 					add(t, "run upstream stage only")
 					if t.OK {
-						t, w = p.do(Cmd{Kind: "commit", Targets: []string{a.file}}, sems, want(11, 1), nil, nil)
+						t, w = p.do(Cmd{Kind: "commit", Targets: []string{a.file}}, sems, want(11, 1, 27), nil, nil)
 						add(t, "commit upstream stage only")
 						t, w = p.do(Cmd{Kind: "run"}, sems, want(18, 19, 23, 8, 9), nil, nil)
 						add(t, "run after upstream was regenerated and committed")
@@ -435,6 +435,14 @@ func onePipe(o *opts, r *rng, s *summary, i int, pl *pipeline, distinct map[stri
 			c := Cmd{Kind: []string{"status", "graph"}[r.intn(2)]}
 			t, w = p.do(c, sems, want(2), nil, nil)
 			add(t, c.Kind)
+		}
+		if r.chance(1, 4) {
+			// a command on a proper subset: every other stage's file and artifacts stay untouched
+			st := pl.stages[r.intn(len(pl.stages))]
+			c := Cmd{Kind: []string{"commit", "checkout", "status"}[r.intn(3)], Targets: []string{st.file}}
+			t, w = p.do(c, sems, want(27, 13), nil, nil)
+			add(t, c.Kind+" of one stage")
+			s.count("targeted:" + c.Kind)
 		}
 	}
 	return ts
